@@ -217,6 +217,8 @@ pub fn run(p: &Params, rep: &mut Report) {
         for n in if p.thorough { vec![1100u32, 2100, 4200, 1300 + (p.seed as u32 * 37) % 1700] } else { vec![1100u32, 301 + (p.seed as u32 * 397) % 1700] } {
             super::ladder::wide_union(rep, "C02", n, p.seed);
         }
+        // first letters 0, 1, 2, ...: the class index of a character is the character itself (256+ classes)
+        super::ladder::wide_union_from(rep, "C02", 300, 0, p.seed);
         super::ladder::wide_tree(rep, "C02", 65_600, p.seed);
     }
     if p.shard == 2 {
